@@ -373,7 +373,7 @@ pub fn program(ch: &mut Choices, o: &WildOpts) -> (Vec<Line>, WildInfo) {
         if !b.labels.is_empty() && !o.c03_domain && ch.chance(1, 14) {
             // a directive between the label(s) and the instruction they name
             lines.push(Line::Dir(".align".into(), vec![i(2)]));
-        } else if !b.labels.is_empty() && !o.c03_domain && ch.chance(1, 20) {
+        } else if !b.labels.is_empty() && ch.chance(1, 20) {
             // an inline data block between the label(s) and the code they name
             lines.push(Line::Dir(".data".into(), vec![]));
             lines.push(Line::Label(format!("inl{}", lines.len())));
